@@ -918,7 +918,10 @@ func TestVerifC29Group(t *testing.T) {
 	// two batches per thread on the same channel (cross-batch order), duplicates across threads
 	seqGroup := [2][][]string{{{"aa", "ab"}, {"ac"}}, {{"ad", "aa"}}}
 	twoChan := [2][][]string{{{"aa", "ab"}}, {{"ba"}, {"bb"}}}
+	// a send without client message number next to an idempotent one, reply-lost fault
+	keyless := [2][][]string{{{"ax", "aa"}}, {{"ab"}}}
 	if thorough {
+		add("keyless", c29bCfg{scripts: keyless, faults: true, bound: 3})
 		add("dup", c29bCfg{router: true, scripts: dupRouter, bound: 3})
 		add("dup", c29bCfg{router: true, scripts: dupRouter, slow: true, advance: 2, effect: 2, bound: 3})
 		add("dup", c29bCfg{router: true, scripts: dupRouter, faults: true, bound: 3})
@@ -933,10 +936,12 @@ func TestVerifC29Group(t *testing.T) {
 		add("two", c29bCfg{scripts: twoChan, stop: "stop", gate: 1, bound: 4})
 		add("dup", c29bCfg{router: true, scripts: dupRouter, slow: true, stop: "stop", gate: 1, bound: 3})
 	} else {
-		add("dup", c29bCfg{router: true, scripts: dupRouter, bound: 2})
-		add("dup", c29bCfg{router: true, scripts: dupRouter, slow: true, advance: 2, effect: 2, bound: 2})
+		dupQ := [2][][]string{{{"aa", "bb"}}, {{"aa", "bd"}, {"aA"}}}
+		add("dup", c29bCfg{router: true, scripts: dupQ, bound: 2})
+		add("dup", c29bCfg{router: true, scripts: dupQ, slow: true, advance: 2, effect: 2, bound: 2})
 		add("seq", c29bCfg{scripts: seqGroup, slow: true, advance: 2, effect: 2, inflight: 2, bound: 2})
-		add("seq", c29bCfg{scripts: seqGroup, faults: true, bound: 3})
+		add("seq", c29bCfg{scripts: seqGroup, faults: true, bound: 2})
+		add("keyless", c29bCfg{scripts: keyless, faults: true, bound: 2})
 		add("two", c29bCfg{scripts: twoChan, slow: true, stop: "stop", gate: 1, bound: 2})
 	}
 	c29bRun(t, "C29", cfgs, []string{"append_port_conflicts", "append_port_retry_attempts", "successes_answered_with_an_earlier_message", "successes_with_own_new_message",
